@@ -52,9 +52,21 @@ CLAIMS["C01"] = dict(
          "(n > 0) of well-behaved streams (any finite mix of Pending steps with arbitrary in-poll wake-ups and items, then "
          "the end) reaches its final None within 3*steps+1 rounds under that executor, which re-polls a stream at once "
          "after an item and otherwise only after a wake-up; both strategies; the bound's coefficient and constant are shown "
-         "necessary for merge. For wait_until, the groups and nests liveness is checked on the real code only: the harness's "
-         "fair wake-only executor (profile drain) must never get stuck (monitor LV).",
-    note=TB + " Liveness by theorem for join, try_join, race, race_ok, merge, chain, zip; for wait_until, groups and nests "
+         "necessary for merge. Theorems C01_wait_f_resolves (+_value: the Ready carries the inner future's value), "
+         "C01_wait_s_ends (FcProps/C01live4.lean): the same for wait_until over a future / a stream (tight bound "
+         "2*steps-1 proved, 2*steps-4 refuted). FcProps/C01liveAny.lean: all of these liveness theorems hold for EVERY "
+         "environment schedule - `_any`: whichever waiting child the environment chooses to let progress in each round "
+         "(pick : round -> state -> child, arbitrary); `_busy`: additionally any lists of further wake-ups (several "
+         "children, resolved children, stale wakers) fired before and after the prod in every round - with the same bound; "
+         "the original deterministic executor is the special case (C01_any_firstWaiting). Theorem C01_group_ends "
+         "(FcProps/C01liveG.lean; executor for groups Fc/ExecG.lean): a FutureGroup of well-behaved futures / StreamGroup of "
+         "well-behaved streams, plain or keyed, both strategies, built from the empty group by any history of "
+         "insert/extend/reserve with fresh members, reaches its final None within 3*steps+1 rounds (only the scripts of the "
+         "inserted members are constrained; +1 shown necessary). For nests, and for groups whose membership changes while "
+         "they are being drained, liveness is checked on the real code only: the harness's fair wake-only executor (profiles "
+         "drain, refill) must never get stuck (monitor LV).",
+    note=TB + " Liveness by theorem for join, try_join, race, race_ok, merge, chain, zip, wait_until (for every schedule "
+         "of the environment) and for groups filled before they are drained (first-waiting schedule); for nests "
          "by the drain runs on the real code. In the configuration stdv the crate's fc-verif hook exposes the readiness "
          "bits / cached count / parent-waker flag, compared with the model's World after every operation.",
     design_ref="DESIGN.md §7 C01, Appendix A")
